@@ -4,7 +4,7 @@
    class invariant [SInv], all index values i < 2^64, every scalar structure
    with the ordered-field laws. *)
 From Coq Require Import List NArith ZArith Bool.
-From BSpl Require Import Scalar Outcome Support Proofs_Support Instances Proofs_SupportGen.
+From BSpl Require Import Scalar Outcome Support Spline Proofs_Support Instances Proofs_SupportGen.
 Import ListNotations.
 Local Open Scope N_scope.
 
@@ -135,6 +135,37 @@ Theorem C13_generated_definitions_agree :
             SupportGen.G.at_guard (grid_size (sgrid s)) (sstart s) (sstop s) i = (sup_size s <=? i)%N).
 Proof. exact (@support_gen_agrees). Qed.
 
+Theorem C13_generated_equality_agrees :
+    forall (F : Type) (K : Ops F) (s t : support F),
+      SupportGen.G.eq (grid_size (sgrid s)) (sstart s) (sstop s) (sstart t) (sstop t) (has_same_grid s t) =
+      sup_eqb s t.
+Proof. exact (@gen_eq_eq). Qed.
+
+Theorem C13_generated_union_agrees :
+    forall (F : Type) (K : Ops F) (s t : support F),
+      gres_interp s t
+        (SupportGen.G.calcUnion (grid_size (sgrid s)) (sstart s) (sstop s) (sstart t) (sstop t) (has_same_grid s t)) =
+      calc_union s t.
+Proof. exact (@gen_calcUnion_eq). Qed.
+
+Theorem C13_generated_intersection_agrees :
+    forall (F : Type) (K : Ops F) (s t : support F),
+      gres_interp s t
+        (SupportGen.G.calcIntersection (grid_size (sgrid s)) (sstart s) (sstop s) (sstart t) (sstop t) (has_same_grid s t)) =
+      calc_inter s t.
+Proof. exact (@gen_calcIntersection_eq). Qed.
+
+Theorem C13_generated_spline_validity_agrees :
+    forall (F : Type) (s : support F) (n : N),
+      SupportGen.G.spline_valid (grid_size (sgrid s)) (sstart s) (sstop s) n = spl_valid s n.
+Proof. exact (@gen_spline_valid_eq). Qed.
+
+Theorem C13_generated_grid_at_agrees :
+    forall (F : Type) (g : list F) (i : N),
+      grid_at g i =
+      (if SupportGen.G.grid_at_guard (grid_size g) i then Throw SupportGen.G.grid_at_throw else grid_sub g i).
+Proof. exact (@gen_grid_at_eq). Qed.
+
 Print Assumptions C13_union_hull.
 Print Assumptions C13_union_least.
 Print Assumptions C13_inter_mem.
@@ -161,6 +192,11 @@ Print Assumptions C13_view_at.
 Print Assumptions C13_view_front.
 Print Assumptions C13_view_back.
 Print Assumptions C13_generated_definitions_agree.
+Print Assumptions C13_generated_equality_agrees.
+Print Assumptions C13_generated_union_agrees.
+Print Assumptions C13_generated_intersection_agrees.
+Print Assumptions C13_generated_spline_validity_agrees.
+Print Assumptions C13_generated_grid_at_agrees.
 
 (* Non-vacuity: the premises are satisfiable by concrete windows (nested,
    point-like, empty) on a rational grid, and the laws compute as stated. *)
